@@ -73,6 +73,19 @@ def get_frame(frame):
         raise UnknownFrameError(frame)
 
 
+def _rebuild_frame(name, cls, state):
+    """Used when unpickling a frame. The frames defined in this module are unique
+    objects, retrieved by name; the frames created on the fly are rebuilt
+    """
+    builtin = globals().get(name)
+    if isinstance(builtin, Frame) and type(builtin) is cls and builtin.name == name:
+        return builtin
+
+    obj = cls.__new__(cls)
+    obj.__dict__.update(state)
+    return obj
+
+
 class Frame:
     """Frame base class"""
 
@@ -100,6 +113,10 @@ class Frame:
 
     def __repr__(self):  # pragma: no cover
         return f"<{self.__class__.__name__} '{self.name}' at {hex(id(self))}>"
+
+    def __reduce__(self):
+        """For pickling"""
+        return _rebuild_frame, (self.name, self.__class__, self.__dict__)
 
     def transform(self, orbit, new_frame):
 
